@@ -74,6 +74,14 @@ func makePlan(i int, r *rand.Rand, thorough bool) csnet.Options {
 			if kind == "proposal" {
 				victim = int((h + 1) % 4) // proposer of round 1
 			}
+			// a third validator is cut off during that height, so the others cannot finish it
+			// without the victim: whatever the victim signs after its restart reaches the wire
+			for w := 0; w < 4; w++ {
+				if w != victim && w != int((h+1)%4) {
+					plan.Partitions = []csnet.Partition{{From: h, To: h, Group: []int{w}}}
+					break
+				}
+			}
 			plan.Crashes = append(plan.Crashes, csnet.CrashSpec{Victim: victim, AtHeight: h, OnSend: kind, MinRound: 1,
 				Point: csnet.CrashPoint{OpIndex: 0, Mode: "before", TearBytes: 0}})
 			opt.Rand = rand.New(rand.NewSource(r.Int63()))
